@@ -136,9 +136,40 @@ def _self_field_path(o, path):
     return is_param(o, "self")
 
 
-def _ret_event(P, fn, site, item):
-    """event for assignments of the return place"""
+def _ret_carriers(fn):
+    """locals whose value becomes the function's result through plain moves (what a spliced helper's or closure's `return`
+    leaves behind: `tmp = <value>; ..; _0 = move tmp`)"""
+    rc = {0}
+    grew = True
+    while grew:
+        grew = False
+        for b2, i2, st2 in fn.stmts():
+            if st2["k"] == "assign" and not st2["dst"]["p"] and st2["dst"]["l"] in rc and st2["rv"]["k"] == "use" and \
+                    st2["rv"]["op"].get("k") in ("copy", "move") and not st2["rv"]["op"]["place"]["p"] and st2["rv"]["op"]["place"]["l"] not in rc:
+                rc.add(st2["rv"]["op"]["place"]["l"])
+                grew = True
+    return rc
+
+
+def _ret_event(P, fn, site, item, rc=None):
+    """event for assignments of the return place (with `rc` = _ret_carriers(fn): of any local that carries the result; the
+    plain moves between them are not events)"""
     bid, idx = site
+    if rc is not None:
+        if idx == "t":
+            if item["k"] == "call" and item["dst"]["l"] in rc and not item["dst"]["p"]:
+                args = P.call_args(fn, item, bid)
+                return ("ret", "call:%s(%s)" % (item["callee"]["key"], ", ".join(_short(a) for a in args)))
+            return None
+        if item["k"] == "assign" and item["dst"]["l"] in rc and not item["dst"]["p"]:
+            rv = item["rv"]
+            if rv["k"] == "use" and rv["op"].get("k") in ("copy", "move") and not rv["op"]["place"]["p"] and rv["op"]["place"]["l"] in rc:
+                return None
+            o = peel(P.rvalue(fn, rv, site))
+            if o[0] == "agg":
+                return ("ret", "agg:%s{%s}" % (o[1], ", ".join("%s<-%s" % (f, _short(v)) for f, v in o[2])))
+            return ("ret", _short(o))
+        return None
     if idx == "t":
         if item["k"] == "call" and item["dst"]["l"] == 0 and not item["dst"]["p"]:
             args = P.call_args(fn, item, bid)
@@ -241,8 +272,10 @@ def r4(ctx, cfg, R="C06.R4"):
             return "delta"
         return None
 
+    rc = _ret_carriers(f)
+
     def watch(fn, site, item):
-        return _ret_event(P, fn, site, item)
+        return _ret_event(P, fn, site, item, rc)
 
     names, table, seen = decision_table(f, {"hit": ["Some", "None"], "delta": ["Set", "Delete"]}, classify, watch)
     ctx.ob(R, key, "tracked-switches", seen["hit"] >= 1 and seen["delta"] >= 1,
@@ -323,6 +356,21 @@ def r5(ctx, cfg, R="C06.R5"):
                         bad.append("Unbounded chosen under %s %s" % (pres, [(e1[0], e1[2]) for e1 in extra]))
                     if not v[1].endswith("Unbounded") and (("Some",) not in pres or extra):
                         bad.append("%s chosen under %s %s" % (v[1].rsplit("::", 1)[1], pres, [(e1[0], e1[2]) for e1 in extra]))
+            if nleaf == 0:
+                # no branch of our own: `start.map(<[u8]>::to_vec).map_or(Bound::Unbounded, Bound::Included)` - std's map / map_or take
+                # the default exactly when the option is None, so the choice depends on presence only by construction
+                for st0 in agg_st:
+                    l0 = q.local_of_operand(st0["rv"]["ops"][idx0])
+                    for kind0, db0, di0, x0 in (P.defs(f).get(l0, []) if l0 is not None else []):
+                        if kind0 == "call" and x0["callee"]["key"] == "std::option::Option::map_or":
+                            a0 = P.call_args(f, x0, db0)
+                            dflt, fn0 = peel(a0[1]), peel(a0[2])
+                            src0 = alts(peel(a0[0]))
+                            plain = all((y[0] == "agg" and y[1].endswith("Option::None")) or
+                                        (y[0] == "agg" and y[1].endswith("Option::Some") and peel(y[2][0][1])[0] == "some" and is_param(peel(y[2][0][1])[1], pname)) or
+                                        is_param(y, pname) for y in src0)
+                            if dflt[0] == "agg" and dflt[1].endswith("Bound::Unbounded") and fn0 == ("fn", "std::ops::Bound::" + want) and plain:
+                                nleaf += 2
             ctx.ob(R, key, "bound-chosen-by-presence-only:%s" % pname, nleaf >= 2 and not bad, "the %s bound of the overlay range: %s" % (pname, bad or "no definition found"), fn=f,
                    sample="Unbounded iff %s is None (%d definitions)" % (pname, nleaf))
     # the guard: a comparison start > end between the Included / Excluded payloads
@@ -388,6 +436,8 @@ def r5(ctx, cfg, R="C06.R5"):
                 return ("range",)
             if k == "std::iter::empty":
                 return ("empty",)
+            if k.startswith("std::collections::BTreeMap::") or k.startswith("std::collections::btree_map::"):
+                return ("map-read", item["callee"]["name"])
         return None
 
     def edge_watch(fn, bid, ei):
@@ -405,7 +455,9 @@ def r5(ctx, cfg, R="C06.R5"):
             npaths += 1
             if ("inverted",) in ev and ("range",) in ev:
                 bad1.append(ev)
-            if ("inverted",) in ev and ("empty",) not in ev:
+            # (the inverted case yields nothing: `iter::empty()`, or `None.into_iter().flatten()` - what it must not do is read
+            # the overlay map in any way)
+            if ("inverted",) in ev and any(e[0] == "map-read" for e in ev):
                 bad2.append(ev)
             if combo[li] == "Included" and combo[ui] == "Excluded" and ("range",) in ev and \
                     not (("in-order",) in ev and ev.index(("in-order",)) < ev.index(("range",))):
@@ -415,7 +467,7 @@ def r5(ctx, cfg, R="C06.R5"):
     ctx.ob(R, key, "finite-bounds-always-checked", not bad3 and seen["lower"] >= 1 and seen["upper"] >= 1,
            "a path with (Included, Excluded) bounds reaches BTreeMap::range without the comparison: %s (tracked switches %s)" % (bad3[:1], seen),
            fn=f, sample="(Included,Excluded) -> guard false edge -> range()")
-    ctx.ob(R, key, "inverted-bounds-give-empty-overlay", not bad2 and len(q.calls(f, "std::iter::empty")) == 1, "the inverted case does not produce iter::empty(): %s" % bad2[:1], fn=f,
+    ctx.ob(R, key, "inverted-bounds-give-empty-overlay", not bad2 and npaths > 0, "the inverted case reads the overlay map instead of yielding nothing: %s" % bad2[:1], fn=f,
            sample="iter::empty()")
 
 
@@ -524,11 +576,23 @@ def r6(ctx, cfg, R="C06.R6"):
             return None
 
         def classify2(fn, bid, t):
-            # a `match` on the stand-in constant is decided like the comparison it replaces
             return classify(fn, bid, t)
 
+        def decide_variant(fn, bid, t, sigma):
+            """a `match` on the ordering: when, under the cell's assumptions, the scrutinee is the constant that stands in for the
+            comparison (`(Some(_), None) => Ordering::Less`), that constant decides"""
+            if t.get("adt") != "std::cmp::Ordering":
+                return None
+            Ps = P.assuming(assumptions(sigma))
+            xs = alts(peel(Ps.place(fn, t["discr_of"], (bid, "t"))))
+            xs = [peel(x[1]) if x[0] == "some" else x for x in xs]
+            if len(xs) == 1 and xs[0][0] == "agg" and xs[0][1].startswith("std::cmp::Ordering::"):
+                return xs[0][1].rsplit("::", 1)[1]
+            return None
+
         names, table, seen = decision_table(f, {"left": ["Some", "None"], "right": ["Some", "None"], "order": ["Ascending", "Descending"],
-                                                "cmp": ["Less", "Equal", "Greater"]}, classify2, None, decide=decide, watch_for=watch_for)
+                                                "cmp": ["Less", "Equal", "Greater"]}, classify2, None, decide=decide, watch_for=watch_for,
+                                            decide_variant=decide_variant)
         seen["cmp"] += seen_bool["cmp"]
         ctx.ob(R, key, "tracked-switches", seen["left"] >= 1 and seen["right"] >= 1 and seen["order"] >= 1 and seen["cmp"] >= 1,
                "next does not branch on both peeks, the order and the comparison: %s" % seen, fn=f, sample=str(seen))
@@ -558,11 +622,21 @@ def r6(ctx, cfg, R="C06.R6"):
                 return "delta"
             return None
 
+        rc_tl = _ret_carriers(f)
+
         def watch(fn, site, item):
             bid, idx = site
+            if idx != "t" and item["k"] == "assign" and not item["dst"]["p"] and item["dst"]["l"] in rc_tl and item["dst"]["l"] != 0:
+                rv0 = item["rv"]
+                if rv0["k"] == "use" and rv0["op"].get("k") in ("copy", "move") and not rv0["op"]["place"]["p"] and rv0["op"]["place"]["l"] in rc_tl:
+                    return None
+            if idx != "t" and item["k"] == "assign" and item["dst"]["l"] == 0 and not item["dst"]["p"]:
+                rv0 = item["rv"]
+                if rv0["k"] == "use" and rv0["op"].get("k") in ("copy", "move") and not rv0["op"]["place"]["p"] and rv0["op"]["place"]["l"] in rc_tl:
+                    return None     # the move that carries a result already reported
             if idx == "t" and item["k"] == "call":
                 c = item["callee"]
-                isret = item["dst"]["l"] == 0 and not item["dst"]["p"]
+                isret = item["dst"]["l"] in rc_tl and not item["dst"]["p"]
                 if c["key"].endswith("Iterator::next") and c.get("resolved", "").startswith("<transactions::MergeOverlay"):
                     return ("self.next", "ret" if isret else "dropped")
                 if c.get("trait") == "std::iter::Iterator" and c["name"] == "next":
@@ -570,7 +644,7 @@ def r6(ctx, cfg, R="C06.R6"):
                     if is_param(a[0], "self"):
                         return ("self.next", "ret" if isret else "dropped")
                 return None
-            if item["k"] == "assign" and item["dst"]["l"] == 0 and not item["dst"]["p"]:
+            if item["k"] == "assign" and item["dst"]["l"] in rc_tl and not item["dst"]["p"]:
                 o = peel(P.rvalue(fn, item["rv"], site))
                 if o[0] == "agg" and o[1].endswith("Option::Some"):
                     tup = peel(o[2][0][1])
@@ -585,8 +659,15 @@ def r6(ctx, cfg, R="C06.R6"):
         names, table, seen = decision_table(f, {"delta": ["Set", "Delete"]}, classify, watch)
         ctx.ob(R, key, "tracked-switches", seen["delta"] >= 1, "take_left does not branch on the delta", fn=f, sample=str(seen))
         exp = {("Set",): (("ret", "Some((lkey,value))"),), ("Delete",): (("self.next", "ret"),)}
+
+        def outcome(s_):
+            # what the path returns is the last value written to the result (an `Option` temporary that a later arm replaces is
+            # not a result); calls whose value is dropped are kept as they are
+            ev = [e for e in s_ if isinstance(e, tuple)]
+            rets = [e for e in ev if e[0] == "ret" or (len(e) > 1 and e[1] == "ret")]
+            return tuple(e for e in ev if e not in rets) + tuple(rets[-1:])
         for combo, seqs in sorted(table.items()):
-            got = {tuple(e for e in s if isinstance(e, tuple)) for s in seqs}
+            got = {outcome(s) for s in seqs}
             ctx.ob(R, key, "take_left(%s)" % combo[0], got == {exp[combo]}, "take_left yields %s, expected %s" % (sorted(got), exp[combo]), fn=f,
                    sample=str(exp[combo]))
         # exactly one left.next() on entry
@@ -607,7 +688,10 @@ def r6(ctx, cfg, R="C06.R6"):
                 c = item["callee"]
                 if c["name"] == "rev":
                     a = P.call_args(fn, item, bid)
-                    return ("rev", _short(a[0])[:40])
+                    # what is reversed is the overlay's range (possibly wrapped: `Some(range).into_iter().flatten()`)
+                    over = contains(a[0], lambda x: x[0] == "call" and x[1] == "std::collections::BTreeMap::range" and _self_field(x[2][0], "local_state")) and \
+                        not contains(a[0], lambda x: x[0] == "call" and x[1] == "cosmwasm_std::Storage::range")
+                    return ("rev", "range(overlay)" if over else _short(a[0])[:40])
                 if c["key"] == "std::iter::empty":
                     return ("empty",)
             return None
